@@ -1,2 +1,196 @@
-(* C08 — placeholder while the proofs are being developed *)
-From AV Require Import Lib.Base H2.Prepare H2.SendLoop.
+(* C08 — HTTP/2 responses are complete and well-described under any flow-control schedule.
+   Only statements here; proofs live in H2/{SendLoopProofs,PrepareProofs,ResponseProofs}.v.
+
+   Reading guide.  [handle_response C now r sr caps sds] is the model of
+   actix-http/src/h2/dispatcher.rs::handle_response for the response [r] (HEAD-ness of the request,
+   status, handler headers, body size, body script) against an abstract h2 stream: [caps] are the
+   successive answers of `poll_capacity` (ANY list of CapNone | CapErr | CapOk n, n arbitrary),
+   [sds] the successive results of `send_data`. It returns the successful stream calls in order
+   (OHead / OReserve / OData) and how the function ended. [body_loop] is the
+   `while let Some(chunk)` loop alone. The model is the code WITH fixes/F10.patch (empty chunks are
+   skipped); [body_loop_orig] is the loop before it. *)
+From AV Require Import Lib.Base Gen.Consts H2.Prepare H2.SendLoop H2.Spec
+  H2.PrepareProofs H2.SendLoopProofs H2.ResponseProofs.
+
+Definition C := H2_CHUNK_SIZE.
+
+(* For every body script and every capacity-grant sequence: the concatenation of the send_data
+   payloads is a prefix of the body's bytes (in order, nothing invented, nothing reordered); if the
+   loop ends normally it is the whole body, the body did not fail, and exactly one END_STREAM was
+   sent, as the last operation; if it does not end normally no END_STREAM is sent at all. *)
+Theorem C08_data_exact : forall (evs : list bev) (caps : list cap_ans) (sds : list bool) t o,
+  body_loop C evs caps sds = (t, o) ->
+  exists rest, body_bytes evs = data_of t ++ rest /\
+    (o = ODone -> rest = [] /\ body_fails evs = false /\
+                  exists t0, t = t0 ++ [OData [] true] /\ eos_count t0 = O) /\
+    (o <> ODone -> eos_count t = O).
+Proof. exact (body_loop_spec C). Qed.
+
+(* The same for the whole response (head included): DATA is a prefix of the body; a response that
+   completes with a body carries all of it. *)
+Theorem C08_response_data_exact : forall now r caps sds t o,
+  handle_response C now r true caps sds = (t, o) ->
+  exists rest, body_bytes (r_body r) = data_of t ++ rest /\
+    (o = ODone -> r_head_req r = false ->
+     is_eof (snd (prepare_response now (r_status r) (r_hdrs r) (r_size r))) = false ->
+     rest = [] /\ body_fails (r_body r) = false).
+Proof. exact (response_data C). Qed.
+
+(* A completed response has exactly one END_STREAM and it is on the last frame; a response that
+   does not complete (reset, error, stalled peer) has none. *)
+Theorem C08_one_end_stream : forall now r caps sds t o,
+  handle_response C now r true caps sds = (t, o) ->
+  (o = ODone -> exists t0 x, t = t0 ++ [x] /\ is_eos_op x = true /\ eos_count t0 = O) /\
+  (o <> ODone -> eos_count t = O).
+Proof. exact (one_end_stream C). Qed.
+
+(* Flow-control schedules cannot change what a completed response delivers. *)
+Theorem C08_schedule_independent : forall now r caps1 sds1 caps2 sds2 t1 t2,
+  handle_response C now r true caps1 sds1 = (t1, ODone) ->
+  handle_response C now r true caps2 sds2 = (t2, ODone) ->
+  data_of t1 = data_of t2 /\ hd_error t1 = hd_error t2.
+Proof.
+  intros now r caps1 sds1 caps2 sds2 t1 t2 H1 H2.
+  pose proof (response_data C _ _ _ _ _ _ H1) as [r1 [D1 F1]].
+  pose proof (response_data C _ _ _ _ _ _ H2) as [r2 [D2 F2]].
+  apply handle_response_spec in H1, H2. cbn zeta in H1, H2.
+  destruct (is_eof _ || r_head_req r) eqn:E.
+  - destruct H1 as [-> _], H2 as [-> _]. split; reflexivity.
+  - apply orb_false_iff in E as [E1 E2].
+    destruct (F1 eq_refl E2 E1) as [-> _]. destruct (F2 eq_refl E2 E1) as [-> _].
+    rewrite !app_nil_r in *. destruct H1 as [tb1 [-> _]], H2 as [tb2 [-> _]].
+    split; [congruence|reflexivity].
+Qed.
+
+(* Progress: every iteration of the 'send loop that is granted cap > 0 strictly shrinks the
+   pending chunk. *)
+Theorem C08_progress : forall (chunk : bytes) (cap : N),
+  chunk <> [] -> 0 < cap ->
+  lenN (skipn (N.to_nat (N.min (lenN chunk) cap)) chunk) < lenN chunk.
+Proof. exact split_progress. Qed.
+
+(* Hence: whenever every grant is positive, at most |body| grants complete the response. *)
+Theorem C08_completes_under_positive_grants : forall evs caps,
+  body_fails evs = false -> Forall positive_grant caps ->
+  (length (body_bytes evs) <= length caps)%nat ->
+  snd (body_loop C evs caps []) = ODone.
+Proof. exact (body_loop_completes C). Qed.
+
+(* The repaired loop never asks h2 for zero capacity (so its liveness does not depend on how h2
+   treats such a request), and never for more than CHUNK_SIZE. *)
+Theorem C08_never_reserves_zero : forall evs caps sds t o,
+  body_loop C evs caps sds = (t, o) -> Forall (fun n => 0 < n <= C) (reserves_of t).
+Proof. intros evs caps sds t o. apply body_loop_reserves. reflexivity. Qed.
+
+(* F10 (repaired by fixes/F10.patch).  Hypothesis [cap_zero_request_pends]: after
+   reserve_capacity(0), poll_capacity never becomes ready (read in h2 0.3.27:
+   `send_capacity_inc` is set only when capacity is assigned; re-established on the real code by
+   the harness: ["ab","","cd"] times out).  Under it the loop as it was never completes a body
+   that contains an empty chunk, whatever the peer grants: *)
+Theorem C08_refuted_empty_chunk_stalls : forall zero_pends : bool,
+  zero_pends = true (* cap_zero_request_pends *) ->
+  exists evs, body_fails evs = false /\
+    forall caps sds, snd (body_loop_orig C zero_pends evs caps sds) <> ODone /\
+                     data_of (fst (body_loop_orig C zero_pends evs caps sds)) <> body_bytes evs.
+Proof.
+  intros zp ->. exists [BChunk [97;98]; BChunk []; BChunk [99;100]]. split; [reflexivity|].
+  intros caps sds.
+  destruct (body_loop_orig C true [BChunk [97;98]; BChunk []; BChunk [99;100]] caps sds) as [t o] eqn:E.
+  apply (orig_empty_chunk_stalls C [[97;98]] [BChunk [99;100]]) in E as [Ho [rest Hr]].
+  - split; [exact Ho|]. cbn [fst concat app body_bytes] in *. intro Hd. rewrite Hd in Hr.
+    apply (f_equal (@length N)) in Hr. rewrite app_length in Hr. cbn [length] in Hr. lia.
+  - constructor; [discriminate|constructor].
+Qed.
+
+(* ... and outside that class of bodies the old loop and the repaired loop are the same function,
+   so every theorem above also held for the old code on bodies without empty chunks. *)
+Theorem C08_orig_holds_outside_known : forall zero_pends evs caps sds,
+  has_empty_chunk evs = false ->
+  body_loop_orig C zero_pends evs caps sds = body_loop C evs caps sds.
+Proof. exact (orig_agrees_without_empty C). Qed.
+
+(* No connection-specific header reaches an HTTP/2 client, whatever the handler put in. *)
+Theorem C08_no_connection_headers : forall now status hdrs size name,
+  In name connection_specific ->
+  has_header name (fst (prepare_response now status hdrs size)) = false.
+Proof. exact no_forbidden_header. Qed.
+
+(* content-length: present iff the body size is Sized n and the status is not one for which the
+   code suppresses it (204/100/102/101), then exactly once with the decimal numeral of n.
+   (Premise: a handler-supplied content-length next to a Stream body is copied through; see
+   C08_user_length_dropped for the other sizes.) *)
+Theorem C08_content_length : forall now status hdrs size,
+  (size = SStream -> values_of h_content_length hdrs = []) ->
+  values_of h_content_length (fst (prepare_response now status hdrs size)) =
+  match size with
+  | SSized n => if code_no_length status then [] else [itoa n]
+  | _ => []
+  end.
+Proof. exact content_length_rule. Qed.
+
+Theorem C08_length_numeral : forall n, n < 2 ^ 64 -> atoi (itoa n) = n.
+Proof. exact atoi_itoa. Qed.
+
+(* unless the body is a Stream, a handler-supplied content-length never reaches the client *)
+Theorem C08_user_length_dropped : forall now status hdrs size,
+  size <> SStream ->
+  values_of h_content_length (fst (prepare_response now status hdrs size)) =
+  match snd (prepare_response now status hdrs size) with SSized n => [itoa n] | _ => [] end.
+Proof. exact user_length_dropped_when_sized. Qed.
+
+(* FULL statement wanted by the property: "a content-length that matches when one is sent", for
+   every handler body.  Proved part: for an HONEST body (size() = Sized(number of bytes it yields))
+   the header equals the number of DATA bytes of the completed response.  Missing: nothing in
+   actix or in h2's sending side enforces honesty; a lying body cannot satisfy both "exactly the
+   bytes the handler produced" and "a matching content-length". *)
+Theorem C08_content_length_matches_partial : forall now r caps sds t,
+  handle_response C now r true caps sds = (t, ODone) ->
+  r_head_req r = false -> code_no_length (r_status r) = false ->
+  r_size r = SSized (lenN (body_bytes (r_body r))) ->
+  exists hs eos tb, t = OHead hs eos :: tb /\
+    values_of h_content_length hs = [itoa (lenN (data_of t))].
+Proof. exact (content_length_matches C). Qed.
+
+(* HEAD requests and the statuses the code treats as body-less (204, 100, 102), and bodies of size
+   None / Sized(0): END_STREAM travels with the head and no DATA frame is ever sent, for every
+   body script and schedule. *)
+Theorem C08_head_and_bodiless : forall now r caps sds,
+  (r_head_req r = true \/ code_bodiless (r_status r) = true \/
+   (r_status r <> 101 /\ is_eof (r_size r) = true)) ->
+  handle_response C now r true caps sds =
+    ([OHead (fst (prepare_response now (r_status r) (r_hdrs r) (r_size r))) true], ODone).
+Proof.
+  intros now r caps sds H. apply handle_response_bodiless; [|reflexivity].
+  destruct H as [H|[H|[H1 H2]]]; [left; exact H|right|right]; rewrite prepare_size.
+  - rewrite H. reflexivity.
+  - destruct (code_bodiless (r_status r)); [reflexivity|].
+    apply N.eqb_neq in H1. rewrite H1. exact H2.
+Qed.
+
+(* Known finding `status-304-body`: RFC 9110 makes 304 and every 1xx body-less too; the code
+   streams the handler's body for them. *)
+Theorem C08_refuted_status_304_body :
+  exists r, rfc_bodiless (r_status r) = true /\ r_status r = 304 /\
+            data_of (fst (handle_response C [] r true [CapOk 3] [])) <> [].
+Proof.
+  exists (mkResp false 304 [] (SSized 3) [BChunk [1;2;3]]). repeat split. vm_compute. discriminate.
+Qed.
+
+Theorem C08_bodiless_holds_outside_known : forall now r caps sds,
+  (r_head_req r = true \/ rfc_bodiless (r_status r) = true) ->
+  known_status_body r = false ->
+  handle_response C now r true caps sds =
+    ([OHead (fst (prepare_response now (r_status r) (r_hdrs r) (r_size r))) true], ODone).
+Proof. exact (bodiless_outside_known C). Qed.
+
+(* non-vacuity: a two-chunk body (with an empty chunk in between, the F10 witness) through a
+   window that forces splitting, grants 0 / exact / larger than requested included *)
+Example C08_example :
+  let r := mkResp false 200 [(h_connection, [1]); (h_content_length, [55])] (SSized 4)
+                  [BChunk [97;98]; BPending; BChunk []; BChunk [99;100]] in
+  handle_response C [] r true [CapOk 1; CapOk 0; CapOk 7; CapOk 1; CapOk 16384] [] =
+    ([OHead [(h_content_length, [52]); (h_date, [])] false;
+      OReserve 2; OData [97] false; OReserve 1; OData [] false; OReserve 1; OData [98] false;
+      OReserve 2; OData [99] false; OReserve 1; OData [100] false; OData [] true], ODone)
+  /\ Forall positive_grant [CapOk 1; CapOk 7] /\ known_status_body r = false.
+Proof. repeat split; try (vm_compute; reflexivity). repeat constructor. Qed.
